@@ -41,6 +41,8 @@ def zweAppend (z : Zwe) (p : Pos) (t : Text) : Zwe := (p, (zweFind? z p).getD []
 structure CopyCfg where
   m : Table
   wc : Char → Int
+  /-- `str.isprintable` per character (fast path of `get_display_width`) -/
+  printable : Char → Bool
   dflt : Cell
   /-- `write_position.xpos + move_x`, `write_position.ypos` -/
   xpos : Int
@@ -177,16 +179,17 @@ def explode : List Frag → List Frag
   | [] => []
   | (style, text) :: rest => text.map (fun c => (style, [c])) ++ explode rest
 
-/-- `while h_scroll > 0 and line: h_scroll -= get_cwidth(line[0][1]); del line[:1]` -/
-def hscrollDrop (wc : Char → Int) : Int → List Frag → Int × List Frag
+/-- `while h_scroll > 0 and line: h_scroll -= get_display_width(line[0][1]); del line[:1]`
+    (`dw` = the width function; since 9db5f12 the DISPLAY width: a mapped control counts as drawn) -/
+def hscrollDrop (dw : Text → Nat) : Int → List Frag → Int × List Frag
   | h, [] => (h, [])
-  | h, f :: rest => if h > 0 then hscrollDrop wc (h - cwidth wc f.2) rest else (h, f :: rest)
+  | h, f :: rest => if h > 0 then hscrollDrop dw (h - dw f.2) rest else (h, f :: rest)
 
 def copyLineInput (cfg : CopyCfg) (lineno : Nat) (st : CopySt) (line : List Frag) : CopySt :=
   let st := drawPrefix cfg lineno 0 st
   let (st, line) :=
     if cfg.hscroll > 0 then
-      let (h, l) := hscrollDrop cfg.wc cfg.hscroll (explode line)
+      let (h, l) := hscrollDrop (displayWidth cfg.m cfg.wc cfg.printable) cfg.hscroll (explode line)
       ({ st with x := st.x - h }, l)
     else (st, line)
   let st := { st with x := alignShift cfg st.x line }
